@@ -68,3 +68,72 @@ def c10(ck):
     ck.sample({"prefix_event": evs[min(40, len(evs) - 1)]})
     ck.assumptions += ["granularity = the calls the writer makes on the destination (write_all of one slice is one step)", "Linux/x86-64 stream sequence only"]
     return runs, fr
+
+
+# ------------------------------------------------------------------------------------------ C15
+_NAMES = [b"", b"a", b"worker", b"0123456789abcde", "café".encode(), "线程-7".encode(), b"two words", b" lead", b"trail ", b"tab\there",
+          "\U0001f600x".encode(), b"\xff\xfe bad", b"\xc3(", b"Web Content"]
+
+
+def _names_scenarios(quick, seed):
+    import random
+    rnd = random.Random(seed)
+    scns = []
+    # every subset of unnamed threads for 1..N listed threads (main thread included in the subset space)
+    maxn = 4 if quick else 5
+    for n in range(1, maxn + 1):
+        for mask in range(1 << n):
+            threads = [{"mode": "pause", "stack_pages": 1, "sp_off": 512, "name_hex": _NAMES[(i + mask) % 11].hex()} for i in range(n - 1)]
+            fail = [("main" if i == 0 else {"slot": i - 1}) for i in range(n) if mask >> i & 1]
+            scns.append({"id": f"names/n{n}/m{mask}", "target": {"threads": threads, "main_name_hex": _NAMES[(mask + 3) % 11].hex()},
+                         "writer": {"blamed": "main"}, "faults": {"name_fail": fail}})
+    # larger lists, random subsets, all name shapes incl. non-UTF-8 (with a crash context blaming that thread, so that its status file is not parsed)
+    for k in range(6 if quick else 60):
+        n = rnd.choice([8, 13, 21, 32])
+        threads = [{"mode": "pause", "stack_pages": 1, "sp_off": 256, "name_hex": rnd.choice(_NAMES[:11]).hex()} for _ in range(n)]
+        fail = [{"slot": i} for i in range(n) if rnd.random() < 0.4]
+        scns.append({"id": f"names/rand{k}", "target": {"threads": threads}, "writer": {"blamed": "main"}, "faults": {"name_fail": fail}})
+    for k, bad in enumerate(_NAMES[11:13]):
+        threads = [{"mode": "pause", "stack_pages": 1, "sp_off": 256, "name_hex": (bad if i == 0 else _NAMES[i % 11]).hex()} for i in range(3)]
+        scns.append({"id": f"names/nonutf8-{k}", "target": {"threads": threads, "regions": [{"name": "code", "len": 4096, "exec": True}]},
+                     "writer": {"blamed": {"slot": 0}, "crash_context": {"sp": {"thread_sp": 0}, "ip": {"region": "code", "off": 64}}}})
+    return scns
+
+
+def c15(ck):
+    quick = ck.tier == "quick"
+    util.mc_design(ck, "ThreadNames", "MC_ThreadNames", "thread-name stream placement for every list of <= MaxThreads threads, every named/unnamed subset, name lengths {0,2}; invariant C15", coverage=True)
+    scns = _names_scenarios(quick, ck.seed)
+    runs = dumps.run_scenarios(ck, scns, "c15")
+    evs = [dumps.names_event(r, d) for r in runs for d in r["dumps"]]
+    for r in runs:
+        if not r["dumps"]:
+            evs.append({"ev": "failed", "origin": r["id"], "outcome": r["end"]["worker"] if r["end"] else "?"})
+    out = os.path.join(ck.work, "c15_names.ndjson")
+    core.export_lines(evs, out)
+
+    def describe(hist, tag):
+        e = hist[-1]
+        pat = "".join("N" if t["readable"] else "u" for t in e["listed"])
+        sig = {"tag": tag}
+        if tag == "C15-name-text-differs":
+            exp = {t["tid"]: t["name"] for t in e["listed"] if t["readable"]}
+            diff = [(bytes.fromhex(exp[n["tid"]]), bytes.fromhex(n["name"])) for n in e["names"] if exp.get(n["tid"]) != n["name"]]
+            kind = "trailing-whitespace-trimmed" if diff and all(a.rstrip() == b for a, b in diff) else "other"
+            sig["kind"] = kind
+            return (sig, f"thread name text differs from the kernel's ({e['origin']}): {diff[:3]}")
+        return (sig, f"thread-name stream wrong for thread list pattern {pat} (N = name readable, u = unreadable) in {e['origin']}: entries {json.dumps(e['names'])[:300]}, count {e['count']}")
+    v = util.judge_batch(ck, "Trace_ThreadNames", out, "thread-name stream of real dumps vs /proc/<pid>/task/<tid>/comm: every subset of unreadable names for 1..N threads, random subsets for 8..32 threads, names of length 0..15 incl. non-ASCII/whitespace/non-UTF-8",
+                         "ThreadNames", describe, traces=len(evs))
+    if v.get("mixed", 0) == 0:
+        raise core.ToolError("vacuous: no dump had a mix of readable and unreadable names")
+    ck.cov["distinct_nontrivial"] = v.get("mixed", 0)
+    ck.cov["rule"] = "one case = one dump of a target with a chosen thread list and chosen subset of unreadable names; non-trivial = at least one unreadable name in the list; distinct by (thread count, subset, names)"
+    ck.cov["exhaustive"] = True
+    ck.cov["decided_by"] = {"set of (tid, name) pairs, uniqueness, slot order": "spec", "UTF-16 decoding of the name strings": "mdparse"}
+    ck.sample({"names_event": next(e for e in evs if e["ev"] == "names" and any(not t["readable"] for t in e["listed"]))})
+    failed = [e for e in evs if e["ev"] == "failed"]
+    ck.cov["dumps_that_failed"] = len(failed)
+    ck.assumptions += ["a name is 'readable' when the ThreadName fail point is not toggled for that thread and /proc comm is valid UTF-8",
+                       "names compared as bytes of the UTF-8 text; the kernel's final newline is not part of the name"]
+    return runs
